@@ -10,6 +10,8 @@ open Lean Utv Utv.J Utv.Conv Utv.ConvJson Utv.C01
   opts  : {"nec","ndl","addition": "unset|no|yes","items","keys","values": "throw|exclude|preserve","unresolved","ignore_constraints"}
   env   : {"enums": ConvJson env, "datas": [{"fields": [{"name","ty","required","default"?,"on_error"?}], "opts": opts}]}
   ops   : parse  {"ty","value","opts"}                         -> outcome
+          field  {"ty","value","opts"}  (required field / parameter `f: ty` under the declaration's options)
+          return {"ty","value","opts"}  (return annotation)
           schema {"data": k, "value": dict}                    -> outcome
           fn     {"params","ret","fopts","body","value": dict} -> {"ok": {"args": dict, "ret": value}} | failure
 -/
@@ -74,6 +76,17 @@ def handle (j : Json) : Json :=
   match str! (fld j "op") with
   | "parse" =>
     encodeOutcome (parse P PP D fuel (decodeOpts (fld j "opts")) (decodeTy (fld j "ty")) (decodeV (fld j "value")))
+  | "field" =>
+    -- a required field `f: T` of a data class / parameter of a function whose options are `opts`
+    let o := decodeOpts (fld j "opts")
+    let f : FieldDecl := { name := "f", ty := decodeTy (fld j "ty"), required := true }
+    (match fieldStep (parse P PP D fuel o) o f [(.str 0 "f", decodeV (fld j "value"))] with
+     | .ok (some y) => encodeOutcome (.ok y)
+     | .ok none => encodeOutcome (.unmodelled "field dropped")
+     | .perr e => encodeOutcome (.perr e) | .escape e => encodeOutcome (.escape e)
+     | .diverge => encodeOutcome .diverge | .unmodelled w => encodeOutcome (.unmodelled w))
+  | "return" =>
+    encodeOutcome (guard (parse P PP D fuel (decodeOpts (fld j "opts")) (decodeTy (fld j "ty")) (decodeV (fld j "value"))))
   | "schema" =>
     encodeOutcome (schemaInit P PP D fuel (nat! (fld j "data")) (kvsOf (decodeV (fld j "value"))))
   | "fn" =>
